@@ -199,6 +199,31 @@ def is_supported(cfg) -> bool:
             po, pi = nodes[c["out"]]["period"], nodes[c["in"]]["period"]
             if pi / po > 4:
                 return False
+    # (iv, second half) a blocking connection that lies on a cycle: the expected computation delay of its sender and its expected
+    # communication delay must stay below one period of the receiver; otherwise delays accumulate around the cycle (rex itself warns:
+    # "The sampling time is smaller than the output phase ... may lead to large (accumulating) delays") and the 10-token look-ahead of
+    # the simulated clock can run dry: step() then never returns (seen once in the seed soak, tie-rich grid, DESIGN 10.3)
+    succ = {}
+    for c in cfg["conns"]:
+        succ.setdefault(c["out"], set()).add(c["in"])
+
+    def reaches(a, b):
+        seen, todo = set(), [a]
+        while todo:
+            x = todo.pop()
+            for y in succ.get(x, ()):
+                if y == b:
+                    return True
+                if y not in seen:
+                    seen.add(y)
+                    todo.append(y)
+        return False
+
+    for c in cfg["conns"]:
+        if c["blocking"] and reaches(c["in"], c["out"]):
+            pi = nodes[c["in"]]["period"]
+            if nodes[c["out"]]["delay"] >= pi or c["delay"] >= pi:
+                return False
     # non-blocking connection from a much slower producer stalls the consumer's look-ahead only
     # by token count: consumer may need up to period_out/period_in steps per message
     for c in cfg["conns"]:
